@@ -689,6 +689,10 @@ def guard_stable(ctx: Ctx, chk) -> None:
                     late.append((f, d))
         n_deref += len(late)
         if not late:
+            # the operations work on a local bound before the first await (`reader = self.reader`): a reset of the
+            # attribute cannot reach a suspended call; nothing to demand (read / write / disconnect were found above)
+            chk.instance(rule)
+            chk.ok(rule, f"{st.fq}::self.{attr}::stable-while-suspended", f"no dereference of self.{attr} follows an await of the same call", st.where if hasattr(st, "where") else "", sample=False)
             continue
         stores = []
         for c in classes:
@@ -727,4 +731,3 @@ def guard_stable(ctx: Ctx, chk) -> None:
                 chk.refute(rule, f"{f.fq}::self.{attr} = None", f"`{norm(x)[:90]}` resets self.{attr} while {short(f0.fq)} may be suspended at an await and dereferences `{norm(d0)}` again when it resumes ({ctx.loc(f0, d0)}): AttributeError on None instead of a transport error", ctx.loc(f, x))
         else:
             chk.ok(rule, key, f"{len(late)} dereference(s) of self.{attr} can follow an await of the same call (first: {ctx.loc(f0, d0)}); no method outside the constructors stores None into self.{attr}", ctx.loc(f0, d0))
-    chk.floor(rule, "dereferences of a stream attribute after an await of the same call", n_deref, 1)
